@@ -653,6 +653,65 @@ PROPS["C18"] = {
 }
 
 
+def hist_oracle(pid, res, driver):
+    """The property on the implementation: each call's bytes inside a history equal its bytes alone on a fresh thread."""
+    findings = []
+    data = res.stream_data.get("HIST")
+    if data:
+        for prof, outs in data["impl"].items():
+            for c, o in zip(data["cases"], outs):
+                m = re.match(r"^\S+ seq=(\S*) fresh=(\S*)$", o)
+                if not m:
+                    findings.append({"case": c[:3000], "impl": o[:300], "profile": prof, "why": "no result (panic / hang) for a call history"})
+                    continue
+                a, b = m.group(1).split(","), m.group(2).split(",")
+                for k, (x, y) in enumerate(zip(a, b)):
+                    if x != y:
+                        findings.append({"case": c[:6000], "impl": o[:400], "profile": prof,
+                                         "why": "call %d of the history gives %s, the same call alone on a fresh thread gives %s" % (k, x, y)})
+                        break
+    data = res.stream_data.get("SCR")
+    if data:
+        for prof, outs in data["impl"].items():
+            for c, o in zip(data["cases"], outs):
+                kind = c.split(" ")[2]
+                if kind == "CACHE":
+                    m = re.search(r" ok (\d+)/(\d+)$", o)
+                    if not m or m.group(1) != m.group(2):
+                        findings.append({"case": c[:2000], "impl": o[:200], "profile": prof,
+                                         "why": "a cached window differs from the window computed from scratch"})
+    return findings
+
+
+HIST_STREAM = {"name": "HIST", "quick": 320, "thorough": 8000, "profiles": ["debug", "release"], "augment": True, "release_in_quick": False,
+               "nontrivial": lambda c, o: c.count(" ;; ") >= 2 and "err" not in o, "memlimit_kb": 8000000}
+SCR_STREAM = {"name": "SCR", "quick": 1500, "thorough": 40000, "profiles": ["debug", "release"],
+              "nontrivial": lambda c, o: c.split(" ")[2] in ("RICE", "PLANES", "CACHE")}
+HIST_RULE = ("HIST: histories of 2..6 calls on one long-lived thread, each call one of: stream-level encode + write (single thread), the "
+             "same multi-threaded with 2 workers, encode + parse + re-serialise, frame-level encode + write; half of the histories are "
+             "unrelated calls (ENC generator: 1-8 channels, widths 8..24, block sizes shrinking and growing over 32..1152, random verified "
+             "configurations), half are the same call repeated with Tukey parameters closer than 2^-16 to each other (0, 2^-16, 0.1, 0.25, "
+             "0.5, 0.75, 0.99998 plus 1e-6 .. 1.5e-5). Observable: FNV-1a of the bytes of every call inside the history and of the same call "
+             "alone on a fresh thread; the model (no history) must give the same bytes. Non-trivial = three or more successful calls. "
+             "SCR: the scratch clients on explicit stale contents through hooks: PrcParameterFinder::find with stale errors / tables / ps / "
+             "min_ps of length 0..70 (result and scratch left behind compared with the model), reset_fixed_lpc_errors on stale planes of "
+             "0..300 lanes for signals of 0..256 samples incl. 15/16/17/31/32/33 (every lane compared), window-cache lookup sequences of 3..10 "
+             "requests with near-equal parameters (cached vs direct), and window_fingerprint over ALL 1,065,353,217 parameter bit patterns "
+             "0 ..= 0x3F800000 against the model's key function.")
+
+PROPS["C10"] = {
+    "coq": "theories/Props/C10.v",
+    "theorems": ["C10_rice_finder_ignores_stale_scratch", "C10_fixed_planes_ignore_stale_scratch", "C10_window_cache_exact",
+                 "C10_colliding_key_leaks"],
+    "streams": [HIST_STREAM, SCR_STREAM], "rule": HIST_RULE,
+    "oracle": hist_oracle,
+    "assumptions": ["PARTIAL: QLPC error buffer, mid/side buffer, estimator float buffers and CRC scratch sinks are covered by the HIST stream "
+                    "(natural histories), not by a stale-content theorem",
+                    "parse calls are exercised through encode + parse + re-serialise; other threads' histories through the multi-threaded call",
+                    "the table scratch of the Rice finder is modelled by its active prefix tables[0..nparts] (the code never indexes beyond it)"],
+}
+
+
 def feat_oracle(pid, res, driver):
     """Cross-build comparison: outputs and estimator (oracle) values of every feature build are identical."""
     findings = []
